@@ -15,7 +15,7 @@ import pandas as pd  # noqa: E402
 from tdda.constraints import discover_df  # noqa: E402
 from tdda.constraints.pd.constraints import PandasConstraintCalculator  # noqa: E402
 
-MODEL_FAMS = [f for f in cx.FAMILIES if f not in ('datetime-tz', 'str')]
+MODEL_FAMS = [f for f in cx.FAMILIES if f not in ('datetime-tz', 'str') + cx.OPT_IN]
 
 
 def constraint_json(c, rex_ids=None):
